@@ -10,7 +10,7 @@
 From Coq Require Import List ZArith NArith Bool.
 From GrolGen Require Import Gen_Consts.
 From GrolModel Require Import Memo.
-From GrolProofs Require Import Memo_proofs Memo_closed.
+From GrolProofs Require Import Memo_proofs Memo_closed Memo_inv.
 Import ListNotations.
 
 (* ---------------------------------------------------------------- the full statement *)
@@ -131,6 +131,34 @@ Theorem cache_hit_is_last_store : forall c key args v o,
   cache_get (cache_put c (mkCe key (map fst args) v o)) key args = Some (v, o).
 Proof. exact get_after_put. Qed.
 
+(* What the cache holds - at every input boundary of every history, cache on or off - is never an error, never is or
+   contains a function, and is keyed by at most MaxArgs hashable arguments ... *)
+Theorem cache_holds_no_errors : forall on fuel defs inputs,
+  Forall (fun p =>
+    Forall (fun ce => is_err (ce_res ce) = false /\ has_function (ce_res ce) = false /\
+                      (Z.of_nat (length (ce_args ce)) <= eval_MaxArgs)%Z /\ forallb hashable (ce_args ce) = true)
+           (st_cache (snd p)))
+    (run on fuel defs init_state inputs).
+Proof. exact run_clean_init. Qed.
+(* ... so no hit, at any depth of any evaluation of any history, ever serves an error or a function value:
+   "results ... that are errors are never served from the cache". *)
+Theorem errors_never_served_from_cache : forall on fuel defs inputs,
+  Forall (fun p =>
+    trace_all (fun key args inner before after res out d =>
+       d = DHit -> is_err res = false /\ has_function res = false)
+      (r_tr (fst p)))
+    (run on fuel defs init_state inputs).
+Proof. exact run_hits_init. Qed.
+
+(* The run with the cache switched off (the eval.VerifCacheOff hook) is inert: no call of any history is a hit or a
+   store and the cache stays empty - it is the reference "memoization disabled" semantics the property compares with. *)
+Theorem cache_off_is_inert : forall fuel defs inputs,
+  Forall (fun p =>
+    st_cache (snd p) = [] /\
+    trace_all (fun key args inner before after res out d => d <> DHit /\ d <> DStored) (r_tr (fst p)))
+    (run false fuel defs init_state inputs).
+Proof. exact run_off_init. Qed.
+
 (* A DontCache extension, or del, anywhere below a call makes that call - and so every one of its callers, they
    are the enclosing nodes - not stored (nor "would be stored" in the cache-off run, nor a hit). *)
 Theorem dontcache_poisons_callers : forall on fuel defs st inputs,
@@ -189,6 +217,14 @@ Example C04_ex_closed_fragment :
   /\ existsb (fun p => has_disp DHit (r_tr (fst p))) (run true 60 ex_fib_defs init_state ex_fib_inputs) = true.
 Proof. vm_compute. repeat split. Qed.
 
+(* the invariant is not vacuous: the cache-on run of the fib history fills the cache (and has hits, above), the
+   cache-off run of the same history never does *)
+Example C04_ex_cache_invariant :
+  existsb (fun p => negb (Nat.eqb (length (st_cache (snd p))) 0)) (run true 60 ex_fib_defs init_state ex_fib_inputs) = true
+  /\ forallb (fun p => Nat.eqb (length (st_cache (snd p))) 0) (run false 60 ex_fib_defs init_state ex_fib_inputs) = true
+  /\ existsb (fun p => has_disp DStored (r_tr (fst p)) || has_disp DHit (r_tr (fst p))) (run false 60 ex_fib_defs init_state ex_fib_inputs) = false.
+Proof. vm_compute. repeat split. Qed.
+
 (* g reads the outer variable x, f calls g: both are DMiss nodes with a counted access below *)
 Example C04_ex_poison :
   let defs := [ mkDef [107;48]%N None [] (EVar [120]%N); mkDef [107;49]%N None [] (ECall (EVar [103]%N) []);
@@ -212,6 +248,9 @@ Print Assumptions cache_store_discipline.
 Print Assumptions cache_store_events_complete.
 Print Assumptions cache_hit_replays_exactly.
 Print Assumptions cache_hit_is_last_store.
+Print Assumptions cache_holds_no_errors.
+Print Assumptions errors_never_served_from_cache.
+Print Assumptions cache_off_is_inert.
 Print Assumptions dontcache_poisons_callers.
 Print Assumptions mutable_outer_read_not_stored.
 Print Assumptions C04_partial.
